@@ -424,7 +424,11 @@ class GreedySelector(SelectorMixin, MetaEstimatorMixin, BaseEstimator):
     def _get_best_new_selection(self, scorer, X, y):
         scores = scorer(X, y)
 
-        max_score_idx = np.argmax(scores)
+        # items that are already selected are never candidates, also when the scores of
+        # all remaining items have dropped to zero (exhausted or rank-deficient data)
+        candidate_scores = np.array(scores, dtype=float)
+        candidate_scores[self.selected_idx_[: self.n_selected_]] = -np.inf
+        max_score_idx = np.argmax(candidate_scores)
         if self.score_threshold is not None:
             if self.first_score_ is None:
                 self.first_score_ = scores[max_score_idx]
